@@ -1,6 +1,11 @@
 (* Props/C09.v — Withdrawals are safe and go to the depositor; delegated actions respect grants.
-   The withdrawal bound / ownership / round-1 law and the grant-accounting law are proved; preservation of
-   C01/C02 and the balance effects are decided per run by the Go monitors + correspondence. *)
+   The withdrawal bound / ownership / round-1 law and the grant-accounting law are proved per call; over ALL histories
+   (C09_records, Proofs/HouseHist.v over the local transitions of a market): every deposit's participation exists and belongs to
+   the depositor, its withdrawal count is the number of recorded withdrawals of that participation and never exceeds the
+   configured maximum, its withdrawn total is the sum of their amounts, liquidity left + withdrawn total = deposited amount -
+   participation fee, and every recorded withdrawal is a non-negative amount booked on the depositor's own deposit.  That withdrawals
+   leave C01 and C02 intact is part of C01_custody and C02_coverage (both invariants go through the withdrawal transition).
+   Grant expiry and the balance effects are decided per run by the Go monitors + correspondence. *)
 From Coq Require Import ZArith Bool List.
 From Sge Require Import Lib.Dec Model.Types Model.Orderbook Model.Chain Proofs.BookFacts Proofs.Gate.
 Open Scope Z_scope.
@@ -32,3 +37,17 @@ Theorem C09_grant : forall gs grantee granter kind amount gs',
                 {| g_grantee := grantee; g_granter := granter; g_kind := kind; g_limit := g_limit g - amount; g_exp := g_exp g |} gs)).
 Proof. exact use_grant_spec. Qed.
 Print Assumptions C09_grant.
+
+From Sge Require Import Model.Mint Proofs.Custody Proofs.HouseHist.
+Theorem C09_records : forall P bk supply vault MP t0 sw sd ops,
+  pr_bet_fee P <= pr_bet_min P ->
+  bget bk POOL = 0 -> bget bk HOUSEFEE = 0 -> bget bk BETFEE = 0 -> Forall valid_op ops ->
+  forall m x, get_ms (run (init bk supply P vault MP t0 sw sd) ops) m = Some x ->
+  (forall d, In d (ms_deps x) ->
+     d_wcount d = zlen (wds_of (d_pidx d) (ms_wds x)) /\ d_wcount d <= zmax0 (pr_h_maxw P) /\
+     d_wtotal d = zsum (map w_amount (wds_of (d_pidx d) (ms_wds x))) /\
+     exists p, get_part (ms_book x) (d_pidx d) = Some p /\ p_owner p = d_depositor d /\ p_liq p + d_wtotal d = d_amount d - p_fee p) /\
+  NoDup (map d_pidx (ms_deps x)) /\
+  (forall w, In w (ms_wds x) -> 0 <= w_amount w /\ exists d, In d (ms_deps x) /\ d_pidx d = w_pidx w /\ d_depositor d = w_depositor w).
+Proof. exact house_records_spelled. Qed.
+Print Assumptions C09_records.
